@@ -112,9 +112,10 @@ def render_log(segments, token):
     """segments: [["lit", text] | ["s", value] | ["d", int] | ["r", value]] -> (format string, args); format and
     arguments agree by construction; the token makes the line findable among the library's own lines"""
     fmt, args = [token], []
+    has_args = any(kind != "lit" for kind, _ in segments)  # logging applies % only when arguments are given
     for kind, val in segments:
         if kind == "lit":
-            fmt.append(str(val).replace("%", "%%"))
+            fmt.append(str(val).replace("%", "%%") if has_args else str(val))
         elif kind == "s":
             fmt.append("%s")
             args.append(val)
